@@ -98,6 +98,9 @@ func runMeta(w *World, rs *RunSpec) {
 		d["req_md"] = p.ReqMD
 		if p.Creds != nil {
 			d["creds"] = fmt.Sprintf("md=%v secure=%v", p.Creds.MD, p.Creds.Secure)
+			if p.Creds2 != nil {
+				d["creds2"] = fmt.Sprintf("md=%v", p.Creds2.MD)
+			}
 		}
 		d["no_outgoing_md"] = p.NoOutgoingMD
 		descs = append(descs, d)
@@ -278,6 +281,10 @@ func genMetaPlan(c *Chooser, p *RPCPlan, binMode int) {
 	if p.Creds != nil && c.Intn(6, "credsecure") == 0 {
 		p.Creds.Secure = true
 	}
+	if p.Creds != nil && p.ID%2 == 1 {
+		// two credentials options on one call, one key in common
+		p.Creds2 = &SimCreds{MD: map[string]string{"cred-a": "2", "cred-second": "s" + strconv.Itoa(p.ID), "sim-rpc": strconv.Itoa(p.ID)}}
+	}
 	p.OptHeader = c.Intn(2, "opthdr") == 1
 	p.OptTrailer = c.Intn(2, "opttlr") == 1
 	p.OptPeer = c.Intn(3, "optpeer") == 2
@@ -377,6 +384,28 @@ func validUTF8(s string) bool { return utf8.ValidString(s) }
 
 // OracleC02 compares what the caller observed with a reference model of the
 // gRPC metadata / status contract applied to what the handler did.
+// oracleUnidentified: every caller of these families says which RPC it is, in
+// its outgoing metadata or through its credentials (the one bare RPC of a run
+// excepted); a handler that cannot tell has lost request metadata.
+func oracleUnidentified(w *World, h *History, prop string, nonUTF8 bool) {
+	r := h.RPCs[-1]
+	if r == nil {
+		return
+	}
+	utf := "utf8"
+	if nonUTF8 {
+		utf = "non-utf8-in-run"
+	}
+	for _, hr := range r.Handlers {
+		got := "?"
+		if hr.Info != nil {
+			got = mdString(hr.Info.ReqMD)
+		}
+		w.AddViolation(prop, "request-md-mismatch", fmt.Sprintf("a %s handler saw request metadata %s: the key by which every caller of this run identifies its RPC (set in the outgoing context or by its credentials) is missing", hr.Method, got),
+			map[string]string{"what": "unidentified-rpc", "values": utf}, hr.Start)
+	}
+}
+
 func OracleC02(w *World, h *History) {
 	// Non-UTF-8 metadata anywhere in the run: the carrier frame that holds it is
 	// unencodable, which ends the whole tunnel (known finding D4), so every RPC
@@ -397,6 +426,7 @@ func OracleC02(w *World, h *History) {
 			stallMark = e.Seq
 		}
 	}
+	oracleUnidentified(w, h, "C02", runNonUTF8)
 	for _, id := range h.RPCIDs {
 		r := h.RPCs[id]
 		p := r.Plan
@@ -499,12 +529,7 @@ func OracleC02(w *World, h *History) {
 				}
 				exp.Set("sim-rpc", strconv.Itoa(p.ID))
 			}
-			if p.Creds != nil {
-				for k, v := range p.Creds.MD {
-					exp.Append(k, v)
-				}
-				exp.Append("cred-call", "call-"+strconv.Itoa(p.ID))
-			}
+			appendCredsExp(exp, p)
 			if !mdEqual(exp, hr.Info.ReqMD) {
 				w.AddViolation("C02", "request-md-mismatch", fmt.Sprintf("rpc %d: handler saw request metadata %s, caller attached %s", id, mdString(hr.Info.ReqMD), mdString(exp)),
 					det("values", utf), hr.Start)
